@@ -215,6 +215,34 @@ def s5(ctx, rep):
     rep.put(ok, "S5", "taint", "Tuner.best_config looks the configuration up by the trial id print_best_metric_found returned", t, None, "")
 
 
+def s5b(ctx, rep):
+    """guard table (found thin by the generic mutation audit)"""
+    from .common import require_guard
+    P = ctx.P
+    f = P.method("MetricsStatistics", "add")
+    cfg = cfg_of(f)
+    st = [n.id for n in cfg.nodes if n.kind == "stmt" and isinstance(n.ast, ast.Assign) and isinstance(n.ast.targets[0], ast.Subscript)
+          and U(n.ast.targets[0].value) in ("self.min_metrics", "self.max_metrics", "self.sum_metrics")]
+    require_guard(ctx, rep, "S4", f, "MetricsStatistics.add: min / max / sum are updated | the metric is numeric", st,
+                  [("self.is_numeric[name]", lambda a: a[0] == "truth" and a[1].startswith("self.is_numeric[") and a[2] is True)],
+                  "numeric metrics are not tracked (best value unknown) and non-numeric ones are compared")
+    g = P.func("syne_tune.tuning_status.print_best_metric_found")
+    cg = cfg_of(g)
+    none_ret = [n.id for n in cg.nodes if n.kind == "stmt" and isinstance(n.ast, ast.Return) and isinstance(n.ast.value, ast.Constant) and n.ast.value.value is None]
+    require_guard(ctx, rep, "S5", g, "print_best_metric_found: 'no best trial' | nothing has been reported yet", none_ret,
+                  [("count == 0", lambda a: a[0] == "eq" and a[3] is True and "0" in (a[1], a[2]) and "count" in a[1] + a[2])],
+                  "no best trial is reported although results exist (or an empty table is searched)")
+    mm = P.func("syne_tune.util.metric_name_mode")
+    cm = cfg_of(mm)
+    rt = [r.value for r in returns_of(mm) if isinstance(r.value, ast.Tuple) and len(r.value.elts) == 2]
+    mname = U(rt[0].elts[0]) if rt else "?"
+    for val, typ in (("metric", "str"), ("metric_names[metric]", "int")):
+        nodes = [n.id for n in cm.nodes if n.kind == "stmt" and isinstance(n.ast, ast.Assign) and U(n.ast.targets[0]) == mname and U(n.ast.value) == val]
+        require_guard(ctx, rep, "S5", mm, f"metric_name_mode: name = {val} | the metric is given as {typ}", nodes,
+                      [(f"isinstance(metric, {typ})", lambda a, t=typ: a[0] == "isinstance" and a[1] == "metric" and a[2] == t and a[3] is True)],
+                      "a metric given by name is used as an index (or the other way round)")
+
+
 def s6(ctx, rep):
     P = ctx.P
     names = extapi.stub_names("numpy")
@@ -241,4 +269,5 @@ def run(ctx, rep, tier="quick"):
     s3(ctx, rep)
     s4(ctx, rep)
     s5(ctx, rep)
+    s5b(ctx, rep)
     s6(ctx, rep)
